@@ -66,7 +66,7 @@ func Harness_C13_shared_cell() {
 
 // the source's value travels through a transport before it is stored into the shared cell
 func Harness_C13_data_through_transport() {
-	t := verifPick("transport", 0, 26)
+	t := verifPick("transport", 0, df.VerifNumTransports-1)
 	variant := verifPick("variant", 0, 1)
 	first := verifPick("share-before-store", 0, 1) == 1
 	share := 0
@@ -79,7 +79,7 @@ func Harness_C13_data_through_transport() {
 
 // the address of the shared cell travels through a transport before main writes the source's value through it
 func Harness_C13_cell_through_transport() {
-	t := verifPick("transport", 0, 26)
+	t := verifPick("transport", 0, df.VerifNumTransports-1)
 	variant := verifPick("variant", 0, 1)
 	first := verifPick("share-before-store", 0, 1) == 1
 	storeForm := 0
